@@ -160,7 +160,11 @@ def coverage(w, seed, spec):
         ns = int(rng.integers(0, 40)) if ps != (1,) else 5
         x = rng.integers(0, ps[0], ns).astype(np.float32)
         y = rng.integers(0, ps[1], ns).astype(np.float32) if len(ps) > 1 else np.zeros(ns, np.float32)
-        cov = np.asarray(l.get_coverage(Sampling(jnp.asarray(x), jnp.asarray(y), jnp.zeros(ns))))
+        try:
+            cov = np.asarray(l.get_coverage(Sampling(jnp.asarray(x), jnp.asarray(y), jnp.zeros(ns))))
+        except Exception as e:      # noqa: BLE001
+            fails.append(f'pixel_shape {ps}: get_coverage raises {type(e).__name__}: {str(e)[:80]}')
+            continue
         ref = np.zeros(tuple(reversed(ps)), np.int64)
         for a, b in zip(x.astype(int), y.astype(int)):
             if len(ps) > 1:
@@ -174,7 +178,10 @@ def coverage(w, seed, spec):
     h = HealpixLandscape(2)
     theta = rng.uniform(0.1, 3.0, 50)
     phi = rng.uniform(0, 6.2, 50)
-    cov = np.asarray(h.get_coverage(Sampling(jnp.asarray(theta), jnp.asarray(phi), jnp.zeros(50))))
+    try:
+        cov = np.asarray(h.get_coverage(Sampling(jnp.asarray(theta), jnp.asarray(phi), jnp.zeros(50))))
+    except Exception as e:      # noqa: BLE001
+        return (fails + [f'healpix get_coverage raises {type(e).__name__}: {str(e)[:80]}'])[:8]
     idx = np.asarray(h.world2index(jnp.asarray(theta), jnp.asarray(phi)))
     ref = np.bincount(idx, minlength=48)
     if cov.shape != (48,) or not (cov == ref).all() or cov.sum() != 50:
